@@ -340,7 +340,8 @@ std::vector<at::Tensor> amen_solve(
                 double eps_local = real_tol * norm_rhs;
 
                 auto drhs = rhs - Op.matvec(previous_solution, false);
-                eps_local /= torch::norm(drhs).item<double>();
+                // a vanishing local right-hand side: the tolerance is relative to the residual of the previous solution instead of zero
+                eps_local = norm_rhs > 0 ? eps_local / torch::norm(drhs).item<double>() : real_tol;
 
                 int flag;
                 int nit;
